@@ -589,3 +589,35 @@ func (E *Engine) cover(st *State, site, what, pos string) {
 	ob.SMT = E.render(st.pc, "false", nil)
 	E.Obligs = append(E.Obligs, ob)
 }
+
+const fAelem = "|aelem|"
+
+// arrayElemRef: the object identity of element idx of a large inline array located at lv.
+func (E *Engine) arrayElemRef(lv *LVal, idx string) string {
+	if lv.Kind != lvHeap {
+		panic(engineErr("large array outside the heap"))
+	}
+	prefix, _ := E.lvPrefix(lv)
+	pid := E.typeID2(E.rootOf(lv) + "!" + prefix)
+	if !E.specDecl["aelem"] {
+		E.specDecl["aelem"] = true
+		E.declare(fAelem, "(Int Int Int) Int")
+		E.declare("|aelem.base|", "(Int) Int")
+		E.declare("|aelem.idx|", "(Int) Int")
+		E.declare("|aelem.path|", "(Int) Int")
+		E.axioms = append(E.axioms,
+			axiom{Name: "aelem-inj", Trigger: []string{fAelem}, Body: "(forall ((b Int) (p Int) (i Int)) (! (and (= (|aelem.base| (|aelem| b p i)) b) (= (|aelem.idx| (|aelem| b p i)) i) (= (|aelem.path| (|aelem| b p i)) p) (=> (> b 0) (> (|aelem| b p i) 0)) (= (select |alloc0| (|aelem| b p i)) (select |alloc0| b))) :pattern ((|aelem| b p i))))"},
+		)
+		E.declare(fAlloc0, "() (Array Int Bool)")
+	}
+	return sx(fAelem, lv.Ref, intLit(int64(pid)), idx)
+}
+
+func (E *Engine) typeID2(k string) int {
+	if id, ok := E.typeIDs["path:"+k]; ok {
+		return id
+	}
+	id := len(E.typeIDs) + 1
+	E.typeIDs["path:"+k] = id
+	return id
+}
